@@ -4,7 +4,8 @@ Model/C02 (layer M1): the sequential connection protocol of `Crazyflie` + `SyncC
 closed with a conformant device: every request the library transmits is answered by exactly one reply, replies
 are delivered in order, and a new link starts with an empty receive queue.
 
-State machine `step : Dev → S → Op → S × List Out`.  The environment/user operations are
+State machine `step : Dev → Sys → Op → Sys × List Out`, `Sys` = the `Crazyflie` object `S` + the wrapper `Wrap`.
+The environment/user operations are
   open found | deliver | work | err | arm | close | syncOpen found | syncClose
 (`deliver` = the dispatcher thread hands the next received packet to the callbacks, `work` = one iteration of the
 first ready worker thread (`_ParamUpdater.run`, `_ExtendedTypeFetcher.run`), `err` = the link driver reports an
@@ -12,11 +13,12 @@ error from its own thread, `arm` = the next transmission reports a link error fr
 Outputs are the calls on the public `Caller`s, the marker `linkFailed` (entry of `_link_error_cb`) and what
 the blocking `SyncCrazyflie` calls do (return / raise).
 
-The state-dependent fan-out of `_link_error_cb` is the table `Gen.C02.errFanout` regenerated from the source,
-and the behaviour that the proposed repairs change is selected by the regenerated flags
-`Gen.C02.syncDisconnectedSetsConnectEvent` (D1) and `Gen.C02.extFetcherAbortsOnDisconnect` (D21).
-The model of the TOC fetchers is the one of the repaired code (`Gen.C02.tocFetcherAbortsOnDisconnect`): a
-fetcher of an aborted attempt is gone.  Core Lean only.
+The state-dependent fan-out of `_link_error_cb` is the table `Gen.C02.errFanout` regenerated from the source.
+The behaviour that the proposed repairs change is selected by two constant flags kept in the state, initialised
+from the regenerated `Gen.C02.syncDisconnectedSetsConnectEvent` (D1, `Wrap.fixD1`) and
+`Gen.C02.extFetcherAbortsOnDisconnect` (D21, `S.fixD21`); the theorems are about the repaired values, the
+counterexample theorems about the unrepaired ones.  The model of the TOC fetchers is the one of the repaired code
+(`Gen.C02.tocFetcherAbortsOnDisconnect`): a fetcher of an aborted attempt is gone.  Core Lean only.
 -/
 import CfVerif.Gen.C02
 namespace CfVerif.C02
@@ -87,16 +89,7 @@ structure ExtF where
   count : Nat
   deriving DecidableEq, Repr, Inhabited
 
-/-- `SyncCrazyflie` -/
-structure Wrap where
-  cbReg : Bool := false                 -- its four callbacks are registered
-  isOpen : Bool := false                -- `_is_link_open`
-  connectEv : Option Bool := none       -- `_connect_event`: none | some isSet
-  disconnectEv : Option Bool := none
-  waitOpen : Bool := false              -- the user thread is blocked in `_connect_event.wait()`
-  waitClose : Bool := false             -- ... in `_disconnect_event.wait()`
-  deriving DecidableEq, Repr, Inhabited
-
+/-- the `Crazyflie` object with its sub-objects (everything except the blocking wrapper) -/
 structure S where
   st : St := .disc
   link : Bool := false                  -- `cf.link is not None`
@@ -112,7 +105,7 @@ structure S where
   connTs : Bool := false                -- `connected_ts is not None` (`is_connected()`)
   logGot : Nat := 0                     -- ghost: log TOC entries received in this attempt
   extGot : Nat := 0                     -- ghost: extended types received in this attempt
-  w : Wrap := {}
+  fixD21 : Bool := Gen.C02.extFetcherAbortsOnDisconnect   -- constant: the code has repair D21 (from the source)
   deriving DecidableEq, Repr, Inhabited
 
 def S.init : S := {}
@@ -128,52 +121,21 @@ infixl:55 " >>> " => andThen
 
 @[inline] def pureS (s : S) : R := (s, [])
 
-/-! ### SyncCrazyflie callbacks (called by the Callers, after the library's own callbacks) -/
-
-def wrapSetConnect (w : Wrap) : Wrap :=
-  match w.connectEv with
-  | some _ => { w with connectEv := some true }
-  | none => w
-
-def wrapSetDisconnect (w : Wrap) : Wrap :=
-  match w.disconnectEv with
-  | some _ => { w with disconnectEv := some true }
-  | none => w
-
-/-- `SyncCrazyflie._connected` -/
-def wrapConnected (w : Wrap) : Wrap :=
-  if w.cbReg then wrapSetConnect { w with isOpen := true } else w
-
-/-- `SyncCrazyflie._connection_failed` -/
-def wrapFailed (w : Wrap) : Wrap :=
-  if w.cbReg then wrapSetConnect { w with isOpen := false } else w
-
-/-- `SyncCrazyflie._disconnected`; the last step only in the repaired code (D1) -/
-def wrapDisconnected (w : Wrap) : Wrap :=
-  if w.cbReg then
-    let w1 := wrapSetDisconnect { w with cbReg := false, isOpen := false }
-    if Gen.C02.syncDisconnectedSetsConnectEvent then wrapSetConnect w1 else w1
-  else w
-
-/-- a Caller fires: the observable call, then the wrapper's callback for it -/
-def emit (e : Ev) (s : S) : R :=
-  let w := match e with
-    | .connected => wrapConnected s.w
-    | .failed => wrapFailed s.w
-    | .disconnected => wrapDisconnected s.w
-    | _ => s.w
-  ({ s with w := w }, [.cb e])
+/-- a Caller fires.  (The application's callback is the observation; the callbacks of `SyncCrazyflie` only set
+its own flags and events and never call back into the `Crazyflie` object, so they are applied to the output
+list afterwards, see `wrapOut`.) -/
+def emit (e : Ev) (s : S) : R := (s, [.cb e])
 
 /-! ### disconnect fan-out, link error, transmission -/
 
 /-- `Crazyflie.disconnected.call`: `Param._disconnected` (updater.close(): queue emptied, `wait_lock` released;
-table and values dropped), `Memory._disconnected`, TOC fetchers and (repaired code) extended-type fetchers
-unregistered, then the application's and the wrapper's callbacks. -/
+table and values dropped), `Memory._disconnected`, `Crazyflie._disconnected` (connected_ts), TOC fetchers and
+(repaired code) extended-type fetchers unregistered, then the application's (and the wrapper's) callbacks. -/
 def disconnectedCall (s : S) : R :=
   emit .disconnected { s with
     upd := { s.upd with q := [], locked := false }
     parToc := 0, vals := [], connTs := false
-    exts := if Gen.C02.extFetcherAbortsOnDisconnect then [] else s.exts
+    exts := if s.fixD21 then [] else s.exts
     stage := .idle }
 
 def callByName (name : String) (s : S) : R :=
@@ -267,7 +229,7 @@ def extAll (d : Dev) (id : Nat) : List ExtF → S → List ExtF × R
     let (e', r) := extOne d id e s
     let (es', r') := extAll d id es r.1
     let finished : Bool := e.req = some id ∧ e.count = 1
-    (if Gen.C02.extFetcherAbortsOnDisconnect ∧ finished then es' else e' :: es', (r'.1, r.2 ++ r'.2))
+    (if s.fixD21 ∧ finished then es' else e' :: es', (r'.1, r.2 ++ r'.2))
 
 def extPacket (d : Dev) (id : Nat) (s : S) : R :=
   let (es, r) := extAll d id s.exts s
@@ -340,45 +302,90 @@ def closeLink (s : S) : R :=
   send none s >>> fun s =>
     disconnectedCall { s with link := false, inq := [] } >>> fun s => pureS { s with st := .disc }
 
-/-- the blocked `SyncCrazyflie` call resumes when its event is set (end of the operation that set it) -/
-def settle (s : S) : R :=
-  if s.w.waitOpen ∧ s.w.connectEv = some true then
-    let w := { s.w with waitOpen := false, connectEv := none }
-    if w.isOpen then ({ s with w := w }, [.openReturned])
-    else ({ s with w := { w with cbReg := false } }, [.openRaised])
-  else if s.w.waitClose ∧ s.w.disconnectEv = some true then
-    ({ s with w := { s.w with waitClose := false, disconnectEv := none } }, [.closeReturned])
-  else pureS s
+/-! ### SyncCrazyflie -/
 
-/-- `SyncCrazyflie.open_link` up to the wait -/
-def syncOpen (found : Bool) (s : S) : R :=
-  if s.w.isOpen then (s, [.openAlreadyOpen])
-  else openLink found { s with w := { s.w with cbReg := true, connectEv := some false } } >>> fun s =>
-    pureS { s with w := { s.w with waitOpen := true } }
+/-- `SyncCrazyflie`.  An `Event` attribute is two flags: the attribute is not None / the event is set. -/
+structure Wrap where
+  cbReg : Bool := false                 -- its four callbacks are registered on the Crazyflie object
+  isOpen : Bool := false                -- `_is_link_open`
+  cev : Bool := false                   -- `_connect_event is not None`
+  cset : Bool := false                  -- ... and it is set
+  dev : Bool := false                   -- `_disconnect_event is not None`
+  dset : Bool := false
+  waitOpen : Bool := false              -- the user thread is blocked in `_connect_event.wait()`
+  waitClose : Bool := false             -- ... in `_disconnect_event.wait()`
+  fixD1 : Bool := Gen.C02.syncDisconnectedSetsConnectEvent   -- constant: the code has repair D1 (from the source)
+  deriving DecidableEq, Repr, Inhabited
 
-/-- `SyncCrazyflie.close_link` up to the wait -/
-def syncClose (s : S) : R :=
-  if s.w.isOpen then
-    closeLink { s with w := { s.w with disconnectEv := some false } } >>> fun s =>
-      pureS { s with w := { s.w with waitClose := true } }
-  else (s, [.closeReturned])
+/-- `if self._connect_event: self._connect_event.set()` -/
+def Wrap.setConnect (w : Wrap) : Wrap := { w with cset := w.cset || w.cev }
+def Wrap.setDisconnect (w : Wrap) : Wrap := { w with dset := w.dset || w.dev }
+
+/-- the wrapper's callback for one call of a Caller (they are registered iff `cbReg`):
+`_connected`, `_connection_failed`, `_disconnected` (its last step only in the repaired code, D1) -/
+def wrapOut (w : Wrap) : Out → Wrap
+  | .cb .connected => if w.cbReg then ({ w with isOpen := true } : Wrap).setConnect else w
+  | .cb .failed => if w.cbReg then ({ w with isOpen := false } : Wrap).setConnect else w
+  | .cb .disconnected =>
+      if w.cbReg then
+        let w1 := ({ w with cbReg := false, isOpen := false } : Wrap).setDisconnect
+        if w.fixD1 then w1.setConnect else w1
+      else w
+  | _ => w
+
+def wrapOuts (w : Wrap) (outs : List Out) : Wrap := outs.foldl wrapOut w
+
+/-- the blocked `SyncCrazyflie` call resumes when its event is set (end of the operation that set it):
+`open_link` clears the event attribute and returns, or removes the callbacks and raises; `close_link` returns -/
+def settle (w : Wrap) : Wrap × List Out :=
+  if w.waitOpen ∧ w.cset then
+    let w := { w with waitOpen := false, cev := false, cset := false }
+    if w.isOpen then (w, [.openReturned]) else ({ w with cbReg := false }, [.openRaised])
+  else if w.waitClose ∧ w.dset then
+    ({ w with waitClose := false, dev := false, dset := false }, [.closeReturned])
+  else (w, [])
+
+/-- the whole object: `SyncCrazyflie` around `Crazyflie` -/
+structure Sys where
+  c : S := {}
+  w : Wrap := {}
+  deriving DecidableEq, Repr, Inhabited
+
+def Sys.init : Sys := {}
 
 inductive Op
   | open (found : Bool) | deliver | work | err | arm | close | syncOpen (found : Bool) | syncClose
   deriving DecidableEq, Repr, Inhabited
 
-def step (d : Dev) (s : S) : Op → R
-  | .open f => openLink f s >>> settle
-  | .deliver => deliver d s >>> settle
-  | .work => work s >>> settle
-  | .err => linkErrorCb s >>> settle
-  | .arm => pureS { s with armed := true }
-  | .close => closeLink s >>> settle
-  | .syncOpen f => syncOpen f s >>> settle
-  | .syncClose => syncClose s >>> settle
+/-- an operation on the `Crazyflie` object; the wrapper's callbacks see the calls, then a blocked call may resume -/
+def lift (w : Wrap) (r : R) : Sys × List Out :=
+  let (w', o) := settle (wrapOuts w r.2)
+  ({ c := r.1, w := w' }, r.2 ++ o)
+
+def step (d : Dev) (s : Sys) : Op → Sys × List Out
+  | .open f => lift s.w (openLink f s.c)
+  | .deliver => lift s.w (deliver d s.c)
+  | .work => lift s.w (work s.c)
+  | .err => lift s.w (linkErrorCb s.c)
+  | .arm => ({ s with c := { s.c with armed := true } }, [])
+  | .close => lift s.w (closeLink s.c)
+  | .syncOpen f =>
+      -- `SyncCrazyflie.open_link` up to the wait
+      if s.w.isOpen then (s, [.openAlreadyOpen])
+      else
+        let r := openLink f s.c
+        let w := wrapOuts { s.w with cbReg := true, cev := true, cset := false } r.2
+        lift { w with waitOpen := true } (r.1, []) |> fun x => (x.1, r.2 ++ x.2)
+  | .syncClose =>
+      -- `SyncCrazyflie.close_link` up to the wait
+      if s.w.isOpen then
+        let r := closeLink s.c
+        let w := wrapOuts { s.w with dev := true, dset := false } r.2
+        lift { w with waitClose := true } (r.1, []) |> fun x => (x.1, r.2 ++ x.2)
+      else (s, [.closeReturned])
 
 /-- run an op sequence, collecting `(op, outputs)` -/
-def run (d : Dev) : S → List Op → S × List (Op × List Out)
+def run (d : Dev) : Sys → List Op → Sys × List (Op × List Out)
   | s, [] => (s, [])
   | s, o :: os =>
     let r := step d s o
@@ -388,17 +395,17 @@ def run (d : Dev) : S → List Op → S × List (Op × List Out)
 /-- what a well-behaved user / environment does (everything else is outside the property):
 one user thread (no user call while a SyncCrazyflie call is blocked, except a plain `close_link` from another
 thread), a link is opened only when none is open, and only an existing driver reports errors. -/
-def allowed (s : S) : Op → Bool
-  | .open _ => ¬ s.link ∧ ¬ s.w.waitOpen ∧ ¬ s.w.waitClose
-  | .syncOpen _ => (¬ s.link ∨ s.w.isOpen) ∧ ¬ s.w.waitOpen ∧ ¬ s.w.waitClose
+def allowed (s : Sys) : Op → Bool
+  | .open _ => ¬ s.c.link ∧ ¬ s.w.waitOpen ∧ ¬ s.w.waitClose
+  | .syncOpen _ => (¬ s.c.link ∨ s.w.isOpen) ∧ ¬ s.w.waitOpen ∧ ¬ s.w.waitClose
   | .syncClose => ¬ s.w.waitOpen ∧ ¬ s.w.waitClose
-  | .err => s.link
-  | .arm => s.link
+  | .err => s.c.link
+  | .arm => s.c.link
   | .close => ¬ s.w.waitClose
   | .deliver => true
   | .work => true
 
-def usage (d : Dev) : S → List Op → Bool
+def usage (d : Dev) : Sys → List Op → Bool
   | _, [] => true
   | s, o :: os => allowed s o && usage d (step d s o).1 os
 
